@@ -6,12 +6,17 @@
    crit_of / matches / find / sequence_set / search_model
                                  : pymap/search.py, selected.py get_all,
                                    session.search_mailbox, state.do_search
-   (Search/Model.v).  A view is well-formed when its messages are numbered
-   1..n with strictly ascending UIDs and header names are stored lower-cased;
-   wf_key asks header field names to be ASCII (anything else raises before
-   the search starts).  Both are re-checked on every correspondence case. *)
+   (Search/Model.v; its dispatch and requirement are read from the GENERATED
+   Search/KeyTable.v).  A view is well-formed when its messages are numbered
+   1..n with strictly ascending UIDs and each message's observed sent date is
+   what the date-parser model (Search/SentDate.v) computes from the source
+   value of its Date: field wherever that model applies; wf_key asks header
+   field names to be ASCII (anything else raises before the search starts) and
+   parenthesised lists to be non-empty (the parser refuses "()").  Both are
+   re-checked on every correspondence case. *)
 From PV Require Import Base.Prelude Wire.SeqSet Search.Text Search.Keys Search.Msg
-     Search.Spec Search.Model Search.TextProofs Search.SearchProofs.
+     Search.Spec Search.Model Search.TextProofs Search.SearchProofs
+     Search.KeyRow Search.KeyTable Search.Grammar.
 
 (* For every key (any nesting depth), every message of every view: building
    the criteria object succeeds and it decides what RFC 3501 says. *)
@@ -144,3 +149,21 @@ Theorem requirement_sufficient : forall always dis choice uid prog v,
   search_model dis choice uid (map compile prog) v.
 Proof. exact search_backend_irrelevant. Qed.
 Print Assumptions requirement_sufficient.
+
+(* The generated tables (Search/KeyTable.v, re-derived from the code on every
+   run) carry the RFC grammar: each keyword key is accepted with its argument
+   shape and builds the key name the model uses ... *)
+Theorem parser_table_has_every_key : forall k w sh, key_word k = Some (w, sh) ->
+  find_grow grammar_table w = Some (mk_grow w sh (skey_name (compile k))).
+Proof. exact grammar_has_key. Qed.
+Print Assumptions parser_table_has_every_key.
+
+(* ... nothing but the RFC keys is accepted, every key name is dispatched, none is
+   disabled by default, NOT repeats, a bare set is never a UID set, "()" is refused.
+   (crit_of / requirement, hence C13 and requirement_sufficient above, are
+   computed from the same generated dispatch table.) *)
+Theorem parser_tables_closed :
+  grammar_only_rfc = true /\ dispatch_complete = true /\ default_disabled = [] /\
+  not_repeats = true /\ bare_set_uid = false /\ keyset_nonempty = true.
+Proof. exact tables_closed. Qed.
+Print Assumptions parser_tables_closed.
